@@ -73,7 +73,12 @@ func genTranslated(ns string, specs []fnSpec, consts map[string][]string) {
 
 var _ = ast.NewIdent
 
+var extraGens []func()
+
 func genAll() {
+	for _, g := range extraGens {
+		g()
+	}
 	genTranslated("Listener", []fnSpec{
 		{"daemon/internal/newrelic/listener.go", "", "isLegacyAgent", "isLegacyAgent"},
 	}, map[string][]string{"daemon/internal/newrelic/listener.go": {"maxMessageSize", "msgHeaderSize", "MessageTypeRaw", "MessageTypeJSON", "MessageTypeBinary"}})
@@ -89,3 +94,243 @@ func genAll() {
 		{"daemon/cmd/daemon/watcher.go", "workerState", "ShouldRespawn", "shouldRespawn"},
 	}, nil)
 }
+
+// ---------------------------------------------------------------------------------------------------
+// Gen.SwapTable: the swap-then-send structure of harvestByType / harvestAll (processor.go) and the
+// FailedHarvest methods, as data.
+
+type swapRow struct {
+	Guard      string // Harvest* constant tested in the enclosing if ("HarvestDefaultData" for the default block)
+	LimitGuard string // event config whose Limit is compared with 0 in the same condition ("" if none)
+	Field      string // harvest.<Field>
+	Ctor       string // constructor installed
+	CtorArg    string // event config whose Limit is passed to the constructor ("" / "const")
+	SaveIdx    int    // statement index of `v := harvest.F`
+	InstallIdx int    // statement index of `harvest.F = New…`
+	SendIdx    int    // statement index of considerHarvestPayload*(v, …)
+	SentSaved  bool   // the variable sent is the one saved
+	SendFn     string
+}
+
+func exprString(e ast.Expr) string {
+	switch x := e.(type) {
+	case *ast.Ident:
+		return x.Name
+	case *ast.SelectorExpr:
+		return exprString(x.X) + "." + x.Sel.Name
+	case *ast.CallExpr:
+		var as []string
+		for _, a := range x.Args {
+			as = append(as, exprString(a))
+		}
+		return exprString(x.Fun) + "(" + strings.Join(as, ",") + ")"
+	case *ast.BinaryExpr:
+		return exprString(x.X) + x.Op.String() + exprString(x.Y)
+	case *ast.BasicLit:
+		return x.Value
+	case *ast.ParenExpr:
+		return "(" + exprString(x.X) + ")"
+	case *ast.UnaryExpr:
+		return x.Op.String() + exprString(x.X)
+	case *ast.StarExpr:
+		return "*" + exprString(x.X)
+	}
+	return fmt.Sprintf("<%T>", e)
+}
+
+// cfgName extracts "CustomEventConfig" from eventConfigs.CustomEventConfig.Limit
+func cfgName(s string) string {
+	i := strings.Index(s, "EventConfig.Limit")
+	if i < 0 {
+		return ""
+	}
+	j := strings.LastIndex(s[:i], ".")
+	return s[j+1:i] + "EventConfig"
+}
+
+func scanSwapBlock(guard, limitGuard string, stmts []ast.Stmt) []swapRow {
+	saved := map[string]string{} // var -> field
+	saveIdx := map[string]int{}
+	rows := map[string]*swapRow{}
+	var order []string
+	for i, st := range stmts {
+		switch x := st.(type) {
+		case *ast.AssignStmt:
+			if len(x.Lhs) != 1 || len(x.Rhs) != 1 {
+				continue
+			}
+			l, r := exprString(x.Lhs[0]), exprString(x.Rhs[0])
+			if x.Tok.String() == ":=" && strings.HasPrefix(r, "harvest.") && !strings.Contains(r, "(") {
+				saved[l] = strings.TrimPrefix(r, "harvest.")
+				saveIdx[l] = i
+			}
+			if x.Tok.String() == "=" && strings.HasPrefix(l, "harvest.") && strings.HasPrefix(r, "New") {
+				f := strings.TrimPrefix(l, "harvest.")
+				row := rows[f]
+				if row == nil {
+					row = &swapRow{Guard: guard, LimitGuard: limitGuard, Field: f, SaveIdx: -1, SendIdx: -1}
+					rows[f] = row
+					order = append(order, f)
+				}
+				row.InstallIdx = i
+				row.Ctor = r[:strings.Index(r, "(")]
+				row.CtorArg = cfgName(r)
+			}
+		case *ast.ExprStmt:
+			c, ok := x.X.(*ast.CallExpr)
+			if !ok {
+				continue
+			}
+			fn := exprString(c.Fun)
+			if strings.HasPrefix(fn, "considerHarvestPayload") && len(c.Args) > 0 {
+				v := exprString(c.Args[0])
+				if f, ok := saved[v]; ok {
+					row := rows[f]
+					if row == nil {
+						row = &swapRow{Guard: guard, LimitGuard: limitGuard, Field: f, InstallIdx: -1}
+						rows[f] = row
+						order = append(order, f)
+					}
+					row.SaveIdx = saveIdx[v]
+					row.SendIdx = i
+					row.SentSaved = true
+					row.SendFn = fn
+				}
+			}
+		}
+	}
+	var out []swapRow
+	for _, f := range order {
+		out = append(out, *rows[f])
+	}
+	return out
+}
+
+func genSwapTable() {
+	_, f := parseFile("daemon/internal/newrelic/processor.go")
+	if f == nil {
+		return
+	}
+	fn := findFunc(f, "", "harvestByType")
+	if fn == nil {
+		failf("processor.go: harvestByType not found")
+		return
+	}
+	var rows []swapRow
+	allBranchInstallsBeforeSend := false
+	for _, st := range fn.Body.List {
+		ifs, ok := st.(*ast.IfStmt)
+		if !ok {
+			continue
+		}
+		cond := exprString(ifs.Cond)
+		if strings.Contains(cond, "HarvestAll==HarvestAll") {
+			// ah.Harvest = NewHarvest(...) must precede the (go) harvestAll(harvest, ...)
+			inst, send := -1, -1
+			for i, s2 := range ifs.Body.List {
+				src := ""
+				switch y := s2.(type) {
+				case *ast.AssignStmt:
+					src = exprString(y.Lhs[0]) + "=" + exprString(y.Rhs[0])
+				case *ast.IfStmt:
+					src = "if:" + fmt.Sprint(len(y.Body.List))
+					ast.Inspect(y, func(n ast.Node) bool {
+						if c, ok := n.(*ast.CallExpr); ok && exprString(c.Fun) == "harvestAll" && len(c.Args) > 0 && exprString(c.Args[0]) == "harvest" {
+							send = i
+						}
+						return true
+					})
+				case *ast.ExprStmt, *ast.GoStmt:
+				}
+				if strings.HasPrefix(src, "ah.Harvest=NewHarvest(") {
+					inst = i
+				}
+			}
+			allBranchInstallsBeforeSend = inst >= 0 && send > inst
+			continue
+		}
+		guard, lim := "", ""
+		for _, g := range []string{"HarvestDefaultData", "HarvestCustomEvents", "HarvestErrorEvents", "HarvestTxnEvents", "HarvestSpanEvents", "HarvestLogEvents"} {
+			if strings.Contains(cond, "ht&"+g+"=="+g) {
+				guard = g
+			}
+		}
+		if guard == "" {
+			continue
+		}
+		if strings.Contains(cond, ".Limit!=0") {
+			lim = cfgName(cond)
+		}
+		rows = append(rows, scanSwapBlock(guard, lim, ifs.Body.List)...)
+	}
+	// harvestAll: the fields of `harvest` it sends
+	var allSends []string
+	if fa := findFunc(f, "", "harvestAll"); fa != nil {
+		for _, st := range fa.Body.List {
+			if es, ok := st.(*ast.ExprStmt); ok {
+				if c, ok := es.X.(*ast.CallExpr); ok && strings.HasPrefix(exprString(c.Fun), "considerHarvestPayload") && len(c.Args) > 0 {
+					allSends = append(allSends, strings.TrimPrefix(exprString(c.Args[0]), "harvest."))
+				}
+			}
+		}
+	} else {
+		failf("processor.go: harvestAll not found")
+	}
+	var b strings.Builder
+	b.WriteString("namespace Gen.SwapTable\n\nstructure Row where\n  guard : String\n  limitGuard : String\n  field : String\n  ctor : String\n  ctorArg : String\n  saveIdx : Int\n  installIdx : Int\n  sendIdx : Int\n  sentSaved : Bool\n  sendFn : String\nderiving Repr, DecidableEq\n\n")
+	b.WriteString("/-- one row per container swapped by harvestByType, in source order -/\ndef rows : List Row := [\n")
+	for i, r := range rows {
+		sep := ","
+		if i == len(rows)-1 {
+			sep = ""
+		}
+		fmt.Fprintf(&b, "  { guard := %q, limitGuard := %q, field := %q, ctor := %q, ctorArg := %q, saveIdx := %d, installIdx := %d, sendIdx := %d, sentSaved := %v, sendFn := %q }%s\n",
+			r.Guard, r.LimitGuard, r.Field, r.Ctor, r.CtorArg, r.SaveIdx, r.InstallIdx, r.SendIdx, r.SentSaved, r.SendFn, sep)
+	}
+	b.WriteString("]\n\n/-- the containers harvestAll sends, in source order -/\ndef allSends : List String := [")
+	for i, s := range allSends {
+		if i > 0 {
+			b.WriteString(", ")
+		}
+		fmt.Fprintf(&b, "%q", s)
+	}
+	fmt.Fprintf(&b, "]\n\n/-- in the HarvestAll branch `ah.Harvest = NewHarvest(…)` precedes the call of harvestAll(harvest, …) -/\ndef allInstallsBeforeSend : Bool := %v\n", allBranchInstallsBeforeSend)
+
+	// FailedHarvest methods: receiver type -> field merged into ("" = no-op)
+	b.WriteString("\n/-- `FailedHarvest` per payload type: the field of the new harvest it is merged into (\"\" = nothing is kept) -/\ndef failedHarvest : List (String × String) := [\n")
+	files := []string{"metrics.go", "errors.go", "slow_sqls.go", "txn_traces.go", "txn_events.go", "custom_events.go", "error_events.go", "span_events.go", "log_events.go", "php_packages.go"}
+	var fh []string
+	for _, fl := range files {
+		_, ff := parseFile("daemon/internal/newrelic/" + fl)
+		if ff == nil {
+			continue
+		}
+		found := false
+		for _, d := range ff.Decls {
+			fd, ok := d.(*ast.FuncDecl)
+			if !ok || fd.Name.Name != "FailedHarvest" || fd.Recv == nil {
+				continue
+			}
+			found = true
+			recv := exprString(fd.Recv.List[0].Type)
+			target := ""
+			ast.Inspect(fd.Body, func(n ast.Node) bool {
+				if c, ok := n.(*ast.CallExpr); ok {
+					s := exprString(c.Fun)
+					if strings.HasPrefix(s, "newHarvest.") && strings.HasSuffix(s, ".MergeFailed") {
+						target = strings.TrimSuffix(strings.TrimPrefix(s, "newHarvest."), ".MergeFailed")
+					}
+				}
+				return true
+			})
+			fh = append(fh, fmt.Sprintf("  (%q, %q)", strings.TrimPrefix(recv, "*"), target))
+		}
+		if !found {
+			failf("%s: no FailedHarvest method", fl)
+		}
+	}
+	b.WriteString(strings.Join(fh, ",\n") + "\n]\n\nend Gen.SwapTable\n")
+	writeLean("SwapTable", b.String())
+}
+
+func init() { extraGens = append(extraGens, genSwapTable) }
